@@ -64,5 +64,10 @@ Spec == Init /\ [][Next]_vars
 CountersExclusive == \A r \in R : cf[r] = 0 \/ cs[r] = 0
 \* a resource whose last check failed below the threshold keeps its old status; one whose run reaches it is unhealthy
 FailRunPublished == \A r \in R : cf[r] >= cfg.ft => status[r] = "unhealthy"
-NeverHealthyFromNothing == \A r \in R : (status[r] = "unknown") => cs[r] < cfg.sth \/ cs[r] = 0 \/ TRUE
+\* C18 as action properties: a status flips only at its thresholds
+FlipsOnlyAtThresholds ==
+  [][\A r \in R :
+       /\ (status'[r] = "unhealthy" /\ status[r] # "unhealthy") => cf'[r] >= cfg.ft
+       /\ (status'[r] = "healthy" /\ status[r] # "healthy") => (cs'[r] >= cfg.sth /\ cs'[r] = cs[r] + 1)
+       /\ (status'[r] = "unknown") => status[r] = "unknown"]_vars
 =============================================================================
